@@ -182,7 +182,10 @@ fn run_case<A: Alphabet>(case: u64, rng: &mut Rng, rep: &mut Report, alpha: &str
             };
             let lo = ex.sf(sq + d);
             let hi = ex.sf(sq - d);
-            if p < lo - 1e-9 || p > hi + 1e-9 {
+            // f32 background frequencies need not sum to exactly one once widened to f64
+            let bg_sum: f64 = bgv.iter().map(|&x| x as f64).sum();
+            let noise = 1e-9 + 2.0 * (m as f64) * (bg_sum - 1.0).abs();
+            if p < lo - noise || p > hi + noise {
                 rep.violate(
                     "c11.tail_bounds",
                     case,
@@ -205,7 +208,7 @@ fn run_case<A: Alphabet>(case: u64, rng: &mut Rng, rep: &mut Report, alpha: &str
 }
 
 pub fn run(cfg: &Config) -> Report {
-    let n = cfg.n(600, 30_000) as u64;
+    let n = cfg.n(3000, 100_000) as u64;
     run_cases(cfg, n, |case, rng, rep| {
         if case % 4 == 3 {
             run_case::<Protein>(case, rng, rep, "protein", 3)
